@@ -59,8 +59,9 @@ func genC09Content(g kit.G) ([]byte, [][2]int, []string) {
 		}
 		return b, nil, []string{"content:invalid-utf8"}
 	case 4:
+		// callers may hand symbols for a document the builder then rejects
 		b := []byte("foo\x00bar baz needle")
-		return b, nil, []string{"content:binary"}
+		return b, [][2]int{{0, 3}, {4, 7}, {8, 11}, {12, 18}}, []string{"content:binary"}
 	case 5:
 		return []byte(kit.Pick(g, []string{"a", "ab", "é", "日"}, "tiny")), nil, []string{"content:tiny"}
 	case 6:
